@@ -32,6 +32,13 @@ from comb_spec_searcher.strategies import AtomStrategy
 MARKS = "xyz"
 
 
+class InterruptedComputation(Exception):
+    """Raised by W.is_empty when a harness armed INTERRUPT_IS_EMPTY (models an interruption)."""
+
+
+INTERRUPT_IS_EMPTY = [False]
+
+
 class Word(str, CombinatorialObject):
     def size(self) -> int:
         # a mark in front of a marked word has size 0
@@ -128,6 +135,10 @@ class W(CombinatorialClass[Word]):
 
     # combinatorial exploration -------------------------------------------------
     def is_empty(self) -> bool:
+        if INTERRUPT_IS_EMPTY[0]:
+            # armed by a harness (C15): this one emptiness computation is interrupted
+            INTERRUPT_IS_EMPTY[0] = False
+            raise InterruptedComputation("is_empty interrupted")
         return any(p in self.prefix for p in self.patterns)
 
     def is_atom(self) -> bool:
@@ -203,6 +214,21 @@ class W(CombinatorialClass[Word]):
             return "".join(sorted(set(self.prefix)))
         free = [a for a in self.alphabet if a not in self.patterns]
         return "".join(sorted(set(self.prefix) | set(free)))
+
+
+class WK(W):
+    """Stored compressed, with a compact text encoding (short classes give payloads of a few
+    bytes, long repetitive prefixes give payloads that zlib shrinks a lot)."""
+
+    def to_bytes(self) -> bytes:
+        return "|".join(
+            [self.prefix, ",".join(self.patterns), "".join(self.alphabet), str(int(self.just_prefix)), ",".join(self.stats), str(int(self.marked))]
+        ).encode()
+
+    @classmethod
+    def from_bytes(cls, b: bytes) -> "WK":
+        p, pats, al, jp, st, mk = b.decode().split("|")
+        return cls(p, tuple(x for x in pats.split(",") if x), al, jp == "1", tuple(x for x in st.split(",") if x), mk == "1")
 
 
 class WB(W):
@@ -403,16 +429,20 @@ class AddImpliedPattern(_JsonMixin, DisjointUnionStrategy[W, Word]):
     this produces one-way edges inside equivalence classes, cycles of one-way edges and
     two-way rules that replace one-way rules with the same labels."""
 
-    SETTINGS = ()
+    SETTINGS = ("two_way",)
 
-    def __init__(self, **kw):
+    def __init__(self, two_way: bool = False, **kw):
+        # two_way=True: the same map declared as a two-way equivalence (a pack listing the
+        # one-way strategy before the two-way one inserts the same key twice, first into
+        # the general store and then into the two-way store)
+        self.two_way = bool(two_way)
         super().__init__(**kw)
 
     def is_two_way(self, comb_class) -> bool:
-        return False
+        return self.two_way
 
     def is_reversible(self, comb_class) -> bool:
-        return False
+        return self.two_way
 
     def decomposition_function(self, c: W) -> Optional[Tuple[W, ...]]:
         if c.marked or c.just_prefix or not c.patterns:
@@ -429,7 +459,7 @@ class AddImpliedPattern(_JsonMixin, DisjointUnionStrategy[W, Word]):
         return (identity_map(c.stats),)
 
     def formal_step(self) -> str:
-        return "add an implied pattern (one way)"
+        return "add an implied pattern (%s)" % ("two way" if self.two_way else "one way")
 
     def forward_map(self, c: W, word: Word, children=None):
         return (word,)
@@ -642,14 +672,19 @@ class RuleFactory(StrategyFactory[W]):
     letter shorter (a rule whose parent differs from the expanded class).
     foreign_first=True yields the foreign-parent rule before the class's own rule."""
 
-    def __init__(self, foreign_first: bool = False):
+    def __init__(self, foreign_first: bool = False, foreign_k: int = 1):
+        # foreign_k=2: the foreign-parent rule is the two-letter expansion of the class whose
+        # prefix is two letters shorter -- a rule that no application of the pack to its
+        # *parent* produces (only the applications to its children do)
         self.foreign_first = foreign_first
+        self.foreign_k = int(foreign_k)
 
     def __call__(self, c: W):
         if c.marked or c.just_prefix:
             return
         own = Expand()(c)
-        foreign = Expand()(c.with_(prefix=c.prefix[:-1])) if c.prefix else None
+        k = self.foreign_k
+        foreign = Expand(k=k)(c.with_(prefix=c.prefix[:-k])) if len(c.prefix) >= k else None
         if self.foreign_first and foreign is not None:
             yield foreign
             yield own
@@ -659,19 +694,20 @@ class RuleFactory(StrategyFactory[W]):
                 yield foreign
 
     def __str__(self) -> str:
-        return "rule factory" + (" (foreign parent first)" if self.foreign_first else "")
+        return "rule factory" + (" (foreign parent first)" if self.foreign_first else "") + (f" (foreign expansion by {self.foreign_k})" if self.foreign_k != 1 else "")
 
     def __repr__(self) -> str:
-        return f"RuleFactory(foreign_first={self.foreign_first})"
+        return f"RuleFactory(foreign_first={self.foreign_first}, foreign_k={self.foreign_k})"
 
     def to_jsonable(self) -> dict:
         d = super().to_jsonable()
         d["foreign_first"] = self.foreign_first
+        d["foreign_k"] = self.foreign_k
         return d
 
     @classmethod
     def from_dict(cls, d: dict) -> "RuleFactory":
-        return cls(bool(d.get("foreign_first", False)))
+        return cls(bool(d.get("foreign_first", False)), int(d.get("foreign_k", 1)))
 
 
 # ---------------------------------------------------------------------------
@@ -957,6 +993,10 @@ def make_pack(name: str) -> StrategyPack:
             expansion = [[RuleFactory()]]
         elif f == "rfac2":
             expansion = [[RuleFactory(foreign_first=True)]]
+        elif f == "rfac3":
+            expansion = [[RuleFactory(foreign_k=2)]]
+        elif f == "oneway2":  # the same one-child key inserted by a one-way and then by a two-way strategy
+            initial = initial + [AddImpliedPattern(), AddImpliedPattern(two_way=True)]
         elif f == "rfaconly":
             initial, expansion = [], [[RuleFactory()]]
         elif f.startswith("ver:"):
